@@ -12,4 +12,5 @@ let find (id : string) : sx -> sx =
   | "C05" -> model_C05
   | "C06" -> model_C06
   | "C07" -> model_C07
+  | "C08" -> model_C08
   | _ -> failwith ("no extracted model for " ^ id)
